@@ -128,6 +128,12 @@ pub fn norm_msg(msg: &str) -> String {
 
 impl Ctx {
     /// True when this worker should stop starting new items (wall cap); marks the run as capped.
+    /// Part of the space was not explored (a watchdog fired): the run is reported as not exhaustive.
+    pub fn mark_capped(&mut self, why: &str) {
+        self.capped = true;
+        self.count("subtrees_cut_by_watchdog", 1);
+        self.note(format!("not exhaustive: {why}"));
+    }
     pub fn out_of_time(&mut self) -> bool {
         if Instant::now() >= self.deadline {
             self.capped = true;
@@ -723,8 +729,6 @@ pub fn run_check(def: &'static CheckDef, tier: Tier) -> i32 {
             n_known += vs.len();
             continue;
         }
-        n_new += vs.len();
-        exit = 1;
         // first occurrence: confirm by replay in a fresh process
         let v = vs[0];
         let path = rdir.join(format!("{}-{}-{:08x}.json", tier.name(), v.idx, hash_of(sig) as u32));
@@ -734,6 +738,14 @@ pub fn run_check(def: &'static CheckDef, tier: Tier) -> i32 {
             let r = replay_cache.entry(v.idx).or_insert_with(|| replay_idx(def, tier, v.idx)).clone();
             match r {
                 Some(rv) if rv.iter().any(|x| &x.sig == sig) => {}
+                Some(_) if sig.starts_with("timeout") => {
+                    // a watchdog that fires in the loaded run but not when the item is replayed alone is the machine
+                    // being busy, not a hang: the item's remaining sub-cases were cut, which makes the run non-exhaustive
+                    eprintln!("note: item {} hit its watchdog ({sig}) but completes when replayed alone; counted as a cap, not a verdict", v.idx);
+                    capped = true;
+                    notes.insert(format!("not exhaustive: item {} hit its watchdog under load ({sig}); it completes when replayed alone", v.idx));
+                    continue;
+                }
                 Some(_) => {
                     eprintln!("machinery: violation {sig} at item {} did not reproduce on replay — uncaptured nondeterminism", v.idx);
                     return 2;
@@ -744,6 +756,8 @@ pub fn run_check(def: &'static CheckDef, tier: Tier) -> i32 {
                 }
             }
         }
+        n_new += vs.len();
+        exit = 1;
         println!("VIOLATION property={} replay={}", def.id, path.display());
         println!("  signature: {sig}\n  what: {}\n  occurrences: {}\n  first case: {}", v.what, vs.len(), short(&v.case));
     }
